@@ -131,7 +131,8 @@ func (commander *Commander) exec(ctx context.Context, parameters Parameters, scr
 			return nil, nil, errors.Wrap(err, "locking accounts for tx processing")
 		}
 		verifhook.Yield(ctx, "locked")
-		unlock(ctx)
+		// the locks must cover the balance read up to the persistence of the log
+		executionContext.releaseOnReturn(func() { unlock(ctx) })
 
 		err = m.ResolveBalances(ctx, commander.store)
 		if err != nil {
